@@ -138,9 +138,16 @@ claim("C14",
       "locates; witnesses replayed through the real classes. Sizes are covered in C01-C06, the Hyper-V header sequence rule in C12.",
       TRUST, "symbolic execution of the metadata parsers + z3 (attributes as (codec, file range) terms)", "4.14")
 
+claim("C17",
+      "The real HyperVFile.__init__, HyperVStorageObjectTable, HyperVStorageKeyTable and HyperVStorageKeyTableEntry "
+      "(type/flags/parent/key/value/file-object pointer) run on a symbolic VMCX/VMRS skeleton (2..3 key tables with symbolic "
+      "index and sequence number, one entry each with symbolic type, size, parent reference, key and value bytes, one file "
+      "object): z3 shows the active header and the active table per index are the ones with the largest sequence number, "
+      "every non-free entry of an active table hangs under the entry its parent reference names (or the root), its key is the "
+      "stored UTF-8 range and its value the type-directed decoding of the stored bytes; witnesses are replayed on real files.",
+      TRUST + "; no public specification of the format exists", "symbolic execution of hyperv.py + z3", "4.17")
+
 PENDING = "check not built yet in this round (planned: see DESIGN.md section 4)"
-for _p in ("C17",):
-    NOT_APPLICABLE[_p] = PENDING
 NOT_APPLICABLE["C16"] = ("the property's content (cstruct writers, AES-GCM, PBKDF2) sits behind C boundaries that would have "
                          "to be stubbed; nothing of the repository's own arithmetic would remain to be decided (DESIGN 5)")
 NOT_APPLICABLE["C18"] = ("expat/ElementTree and unbounded string processing (strip/lower/partition) are outside what the "
